@@ -76,6 +76,16 @@ class MyoRef:
             bs = z3.simplify(b)
             if not (z3.is_rational_value(bs) or z3.is_int_value(bs)):
                 self.need(guard, a > 0)
+            else:
+                from .smt import numeral_value
+                q = numeral_value(bs)
+                if q.denominator == 1:
+                    if q < 0:
+                        self.need(guard, a != 0)
+                elif q < 0:
+                    self.need(guard, a > 0)
+                else:
+                    self.need(guard, a >= 0)
             return c.pow(a, b)
         if k == "Sqrt":
             a = c.real(self.ev(ops[0], guard))
